@@ -27,6 +27,7 @@ type c19Scenario struct {
 	PauseMax  string `json:"consumer_pause_below,omitempty"`
 	GenLatMax string `json:"delegate_latency_below,omitempty"`
 	CancelAt  string `json:"cancel_at"`
+	StopAtCancel bool `json:"consumer_stops_at_cancel,omitempty"` // like the packet workers: nobody reads the request stream after the cancel
 	ByDeadline bool  `json:"scan_ends_by_deadline,omitempty"` // the scan context ends by a deadline of the caller, not by cancel()
 	CtxAware  bool   `json:"delegate_checks_context,omitempty"` // the delegate refuses to start a pass on a cancelled context (returns ctx.Err())
 }
@@ -155,6 +156,7 @@ func runC19Lib(t *testing.T, c simrt.Chooser, o Opts) *Out {
 		}
 	}
 	sc.ByDeadline = p.pct("bydeadline", 25)
+	sc.StopAtCancel = p.pct("stopatcancel", 20)
 	sc.CancelAt = cancelAt.String()
 	out := &Out{Scenario: sc, Stats: map[string]int{}}
 
@@ -162,6 +164,7 @@ func runC19Lib(t *testing.T, c simrt.Chooser, o Opts) *Out {
 	var recvs []c19Recv
 	var startErr error
 	closedSeen := false
+	stoppedAtCancel := false
 	var closeT time.Duration
 	finished := false
 	res := simrt.Execute(t, simrt.Config{Chooser: c, Trace: o.Trace, MaxSteps: 400_000, MaxVirt: cancelAt + 100*time.Hour, MaxStepsNoTime: 60_000}, nil, func(r *simrt.Run) {
@@ -186,7 +189,15 @@ func runC19Lib(t *testing.T, c simrt.Chooser, o Opts) *Out {
 			simrt.Cancel("c19.cancel", cancel)
 		})
 		for {
-			req, ok := simrt.Recv2("c19.consume", ch)
+			if sc.StopAtCancel && ctx.Err() != nil {
+				simrt.Sleep("c19.after-cancel", time.Second)
+				stoppedAtCancel = true
+				break
+			}
+			req, ok, canc := simrt.RecvCtx("c19.consume", ctxDoneIf(sc.StopAtCancel, ctx), ch)
+			if canc {
+				continue
+			}
 			if !ok {
 				closedSeen = true
 				closeT = r.Now()
@@ -221,6 +232,18 @@ func runC19Lib(t *testing.T, c simrt.Chooser, o Opts) *Out {
 	}
 	if res.End == simrt.EndBusyLoop {
 		out.violate("C19.busy-loop", sig, "more than 60000 scheduling steps without virtual time advancing (at %v); passes started: %d", res.Virt, len(del.passes))
+		return out
+	}
+	if stoppedAtCancel {
+		// nobody read the stream after the cancel: one virtual second later the live generator must
+		// have ended all the same (it may drop what it was about to hand over, never wait for a reader)
+		simrtProbe(&res, "consumer-stopped-at-cancel")
+		for _, a := range res.Alive {
+			if strings.Contains(a, "pkg/scan/request.go") {
+				out.violate("C19.cancel-leak", sig, "a goroutine of the live generator is still alive 1s after the cancel with nobody reading the stream: %s", a)
+				break
+			}
+		}
 		return out
 	}
 	if !finished {
